@@ -102,6 +102,15 @@ def decodeVerb : List Byte → Option (Nat × List Byte)
         | _ => none
       | _ => some (0xFFFD, r)
 
+/-- The precision part of a directive: `.` followed by digits (possibly none:
+`%.v` means precision 0); Go requires at least one more byte after the dot
+(`if i+1 < end && format[i] == '.'`). -/
+def parsePrec (st : FState) : List Byte → FState × List Byte
+  | 0x2E :: c :: r' =>
+    let (p, _, r'') := parsenum (c :: r')
+    ({ st with prec := some p }, r'')
+  | r => (st, r)
+
 /-- One directive `%…verb` occupying the whole string (what `MakeFormat`
 produces); the state seen by the formatter of the operand. -/
 def parseDirective (forkRule : Bool) (f : List Byte) : Option FState :=
@@ -110,13 +119,7 @@ def parseDirective (forkRule : Bool) (f : List Byte) : Option FState :=
     let (st, r) := parseFlags forkRule {} r
     let (w, wp, r) := parsenum r
     let st := { st with wid := if wp then some w else none }
-    let (st, r) :=
-      match r with
-      | 0x2E :: c :: r' =>
-        -- `if i+1 < end && format[i] == '.'`: a precision needs at least one more byte
-        let (p, _, r'') := parsenum (c :: r')
-        ({ st with prec := some p }, r'')
-      | _ => (st, r)
+    let (st, r) := parsePrec st r
     match decodeVerb r with
     | some (v, []) => some { st with verb := v }
     | _ => none
